@@ -276,12 +276,15 @@ def forward_cases(ctx, lines, expect):
             if not isinstance(out, QBytesTensor) or out.qtype != q.qtypes[aq] or out.axis is not None:
                 ctx.spec_failures.append((f"C08:output-not-quantized-as-configured:{kind}", dict(sig_cfg, got=type(out).__name__)))
             elif kind == "lin":
-                step = float(qm.output_scale) * (1.0 if aq == "qint8" else float(out.dequantize().abs().max()) * 2.0 ** -2 + 1e-30)
+                # one step of the output grid: the scale for int8, the float8 spacing at the largest magnitude otherwise
+                step = float(qm.output_scale) if aq == "qint8" else float(max(out.dequantize().abs().max(), refq.dequantize().abs().max())) * (2.0 ** -2 if aq == "qfloat8_e5m2" else 2.0 ** -3) + 1e-30
                 d = (out.dequantize().double() - refq.dequantize().double()).abs().max()
                 if float(d) > step * 1.001 + 2.0 ** -8 * float(out.dequantize().abs().max()):
                     sig = "C08:linear-quantized-output-more-than-one-step-off"
                     if "float8" in wq and "float8" in aq and dt == torch.float16:
                         sig = "C08:linear-float8xfloat8-in-float16-overflow"
+                    elif qm.qweight is not None and hasattr(qm.qweight, "_scale") and float(qm.input_scale.double() * qm.qweight._scale.double().abs().min()) < float(torch.finfo(dt).tiny):
+                        sig = "C08:linear-scale-product-subnormal"
                     ctx.spec_failures.append((sig, dict(sig_cfg, diff=float(d), step=step)))
             elif bits_of(out._data.float()) != bits_of(refq._data.float()) or bits_of(out._scale) != bits_of(refq._scale):
                 ctx.spec_failures.append((f"C08:quantized-output-differs-from-float-twin:{kind}", dict(sig_cfg)))
